@@ -16,7 +16,7 @@ ASSUMPTIONS = [
   "callbacks are functions - or callable objects that keep a __name__ (cobj) - with distinct identifier names other than 'handled'; signal names are identifiers; a declining callback may have called trans() before it declines (dtrans)",
   "fresh signal registry and fabric per case",
 ]
-OUTSIDE = ["lambdas / bound methods / callbacks named 'handled' as callbacks, signal names that are not identifiers (to_code cannot render them)",
+OUTSIDE = ["state names outside the three pools (plain, containing 'top', contained in one another)", "lambdas / bound methods / callbacks named 'handled' as callbacks, signal names that are not identifiers (to_code cannot render them)",
            "Factory.nest given state names as strings (every documented use passes state methods)",
            "more than 3 generated states, more than one initial transition per state"]
 EXPLANATION = ("Bounded symbolic execution (CrossHair/z3) over chart tables of 3 generated states: shape, start state, initial transitions, which state on "
@@ -69,6 +69,8 @@ PLEN = [[[len(path_of(sh, rest_of(sh, im, c))) for c in range(3)] for im in rang
 def pre(v, lim):
   if v["shape"] > lim["SH"] or v["ee"] > lim["EE"] or v["order"] > lim["ORD"]:
     return False
+  if (v["nms"] or v["reuse"]) and (v["noise"] or v["bsel"] or v["ee"] or v["dtrans"] or v["cobj"] or v["order"] or (v["nms"] and v["reuse"])):
+    return False          # other state names / re-used template functions: on the plain tables only (one variation at a time)
   plen = 1
   # table lookup written as comparisons so that the solver decides it
   for sh in range(4):
@@ -189,7 +191,10 @@ def register_all(chart, b, order, via_factory=None):
       chart.register_parent(b.states[i], chart.top if p < 0 else b.states[p])
 
 
-def run_build(which, shape, cur, initm, depth, kind, pmask, noise, bsel, ee, order, evt, dtrans=0, cobj=0, texts=None):
+SNAMES = [["s0", "s1", "s2"], ["stopped", "top_level", "desktop"], ["s", "s_s", "ss"]]      # plain; names containing 'top'; names contained in one another
+
+
+def run_build(which, shape, cur, initm, depth, kind, pmask, noise, bsel, ee, order, evt, dtrans=0, cobj=0, texts=None, nms=0, reuse=0):
   """returns (start log, step log, resting state name, texts of to_code when which == 1)"""
   from vf import hosts
   hsm, ao = hosts.install_stubs()
@@ -197,10 +202,21 @@ def run_build(which, shape, cur, initm, depth, kind, pmask, noise, bsel, ee, ord
   parent, table = make_table(shape, cur, initm, depth, kind, pmask, noise, bsel, ee, dtrans)
   b = Build(table, parent)
   b.callable_objects = bool(cobj)
+  SN = SNAMES[nms]
   out_texts = None
   if which == 1:
     chart = hsm.HsmWithQueues()
-    b.states = [hsm.state_method_template("s%d" % i) for i in range(3)]
+    b.states = [hsm.state_method_template(SN[i]) for i in range(3)]
+    if reuse:
+      # the same template functions were used by another chart before (templates find callbacks and parents through the chart they are called with)
+      earlier = hsm.HsmWithQueues()
+      register_all(earlier, b, order)
+      earlier.start_at(b.states[cur])
+      earlier.post_fifo(ev.Event(signal="B" if evt else "A"))
+      earlier.next_rtc()
+      earlier.post_fifo(ev.Event(signal="UNKNOWN_TO_EVERY_STATE"))
+      earlier.next_rtc()
+      del b.log[:]
     register_all(chart, b, order)
     out_texts = []
     for i in range(3):
@@ -210,7 +226,7 @@ def run_build(which, shape, cur, initm, depth, kind, pmask, noise, bsel, ee, ord
         out_texts.append(ex)
   elif which == 2:
     chart = ao.Factory("f")
-    blue = [chart.create(state="s%d" % i) for i in range(3)]
+    blue = [chart.create(state=SN[i]) for i in range(3)]
     b.states = [x.to_method() for x in blue]
     register_all(chart, b, order, via_factory=blue)
   elif which == 3:
@@ -223,7 +239,7 @@ def run_build(which, shape, cur, initm, depth, kind, pmask, noise, bsel, ee, ord
     ns.update(b.cbs)
     for i in range(3):
       exec(texts[i], ns)
-    b.states = [ns["s%d" % i] for i in range(3)]
+    b.states = [ns[SN[i]] for i in range(3)]
   else:
     chart = hsm.HsmWithQueues()
     rs = ev.return_status
@@ -236,7 +252,7 @@ def run_build(which, shape, cur, initm, depth, kind, pmask, noise, bsel, ee, ord
           return cbs[e.signal](c, e)
         c.temp.fun = c.top if parent[i] < 0 else b.states[parent[i]]
         return rs.SUPER
-      state.__name__ = "s%d" % i
+      state.__name__ = SN[i]
       return hsm.spy_on(state)
     b.states = [mk(i) for i in range(3)]
   chart.start_at(b.states[cur])
@@ -250,10 +266,11 @@ def run_build(which, shape, cur, initm, depth, kind, pmask, noise, bsel, ee, ord
 BUILDS = {1: "template+register", 2: "Factory", 3: "to_code text", 4: "hand-written reference"}
 
 
-def case(shape, cur, initm, depth, kind, pmask, noise, bsel, ee, order, evt, dtrans=0, cobj=0):
+def case(shape, cur, initm, depth, kind, pmask, noise, bsel, ee, order, evt, dtrans=0, cobj=0, nms=0, reuse=0):
   args = (shape, cur, initm, depth, kind, pmask, noise, bsel, ee, order, evt, dtrans, cobj)
   parent, table = make_table(shape, cur, initm, depth, kind, pmask, noise, bsel, ee, dtrans)
-  what = "parent=%s table=%s start=s%d event=%s first-registered=s%d%s" % (parent, table, cur, "B" if evt else "A", order, ", callbacks are callable objects" if cobj else "")
+  what = "parent=%s table=%s start=s%d event=%s first-registered=s%d%s%s%s" % (parent, table, cur, "B" if evt else "A", order, ", callbacks are callable objects" if cobj else "",
+                                                                           ", states named %s" % SNAMES[nms] if nms else "", ", the template functions served another chart before" if reuse else "")
   if not any(table):
     # no callback registered on any state: register_signal_callback was never called, the chart was not assembled with it
     return PASS(nontrivial=False, tags=["degenerate: no callback at all (outside the claim)"])
@@ -268,7 +285,7 @@ def case(shape, cur, initm, depth, kind, pmask, noise, bsel, ee, order, evt, dtr
         return FAIL("to_code-raises:%s%s" % (type(texts[i]).__name__, ":state-without-callbacks" if nothing else ""),
                     "%s: to_code(s%d) raised %r" % (what, i, texts[i]))
     try:
-      r = run_build(which, *args, texts=texts)
+      r = run_build(which, *args, texts=texts, nms=nms, reuse=reuse)
     except Exception as ex:
       return FAIL("raised:%s:%s" % (BUILDS[which].split()[0], type(ex).__name__), "%s: build '%s' raised %r" % (what, BUILDS[which], ex))
     if which == 1:
@@ -285,7 +302,8 @@ def case(shape, cur, initm, depth, kind, pmask, noise, bsel, ee, order, evt, dtr
 
 
 Family(globals(), "h_builds", params=[("shape", 0, 3), ("cur", 0, 2), ("initm", 0, 1), ("depth", 0, 3), ("kind", 0, 3), ("pmask", 0, 7),
-                                       ("noise", 0, 1), ("bsel", 0, 3), ("ee", 0, 2), ("order", 0, 2), ("evt", 0, 1), ("dtrans", 0, 1), ("cobj", 0, 1)],
+                                       ("noise", 0, 1), ("bsel", 0, 3), ("ee", 0, 2), ("order", 0, 2), ("evt", 0, 1), ("dtrans", 0, 1), ("cobj", 0, 1),
+                                       ("nms", 0, 2), ("reuse", 0, 1)],
        pre=pre, case=case, split=["shape", "cur", "ee", "order"], tiers=LIM)
 
 
